@@ -2,8 +2,8 @@
 from ..main import k_suite, Violation, parse_mismatch, Trace
 from .. import ksuites, gen
 
-LEAN_MODULES = ["Shm.Props.C07"]
-GEN_TABLES = ["MechTable.lean", "Access.lean", "ClassTable.lean"]
+LEAN_MODULES = ["Shm.Props.C07", "Shm.Props.FactsC07"]
+GEN_TABLES = ["EntryFacts.lean", "MechTable.lean", "Access.lean", "ClassTable.lean"]
 LEVEL = "proof"
 CONFIGS = [("ALL", "slots.mechanisms = ALL\n"),
            ("CKM_AES_CBC,CKM_AES_ECB,CKM_SHA256_HMAC,CKM_SHA_1,CKM_RSA_PKCS,CKM_SHA256_RSA_PKCS,CKM_ECDSA,CKM_AES_KEY_GEN,CKM_RSA_PKCS_KEY_PAIR_GEN,CKM_EC_KEY_PAIR_GEN,CKM_EC_EDWARDS_KEY_PAIR_GEN,CKM_BOGUS",
